@@ -11,12 +11,12 @@ namespace AferoVerif
 
 /-- outcome classes of a handle call (messages are never compared) -/
 inductive FErr where
-  | closed | eof | rohandle | range | inval
+  | closed | eof | rohandle | range | inval | notdir
   deriving DecidableEq, Repr, Inhabited
 
 def FErr.tag : FErr → String
   | .closed => "closed" | .eof => "eof" | .rohandle => "rohandle"
-  | .range => "range" | .inval => "inval"
+  | .range => "range" | .inval => "inval" | .notdir => "notdir"
 
 /-- result of one handle call -/
 inductive FOut where
@@ -65,6 +65,7 @@ def readAtC (d : Bytes) (h : Handle) (len : Nat) (off : Int) : Handle × FOut :=
 def writeC (d : Bytes) (h : Handle) (b : Bytes) : Bytes × Handle × FOut :=
   if h.closed then (d, h, .n 0 (some .closed))
   else if h.readOnly then (d, h, .n 0 (some .rohandle))
+  else if b = [] then (d, h, .n 0 none)        -- writing nothing changes nothing
   else
     let n : Int := b.length
     let cur := h.pos
@@ -205,6 +206,7 @@ def stepS (s : FileSt) (op : FOp) : FileSt × FOut :=
     | some h =>
       if h.closed then (s, .n 0 (some .closed))
       else if h.readOnly then (s, .n 0 (some .rohandle))
+      else if b = [] then (s, .n 0 none)
       else ({ s with data := writeS s.data h.pos.toNat b }.setH i { h with pos := h.pos + b.length },
             .n b.length none)
   | .writeAt i b off => match s.hs[i]? with
@@ -213,6 +215,7 @@ def stepS (s : FileSt) (op : FOp) : FileSt × FOut :=
       if off < 0 then (s, .n 0 (some .inval))
       else if h.closed then (s, .n 0 (some .closed))
       else if h.readOnly then (s, .n 0 (some .rohandle))
+      else if b = [] then (s, .n 0 none)
       else ({ s with data := writeS s.data off.toNat b }, .n b.length none)
   | .truncate i size => match s.hs[i]? with
     | none => (s, .err .inval)
